@@ -160,6 +160,12 @@ func (c *RegConfig) ParseOrResolveBlocklisted(provided string) (string, bool) {
 		// ResolveIPAddr answers the empty host with an address that has no IP
 		return "", lookup
 	}
+	if addr.Zone != "" {
+		// A zone names an interface of this station, which a client cannot
+		// meaningfully choose; for IPv4-mapped addresses IPAddr.String() even
+		// yields "10.0.0.1%eth0", which net.Dial would treat as a host name.
+		return "", lookup
+	}
 	return net.JoinHostPort(addr.String(), port), lookup
 }
 
